@@ -797,8 +797,15 @@ fn generate_hunks(
 
         // Apply coercion if enabled
         if options.coerce_separators == CoercionMode::Auto {
-            // Find the match position within the line and extract context
-            if let Some(match_pos) = line_string.find(&content) {
+            // Find the match position within the line and extract context: the match's own
+            // column when the text is there (an earlier occurrence of the same text inside a
+            // longer identifier, as in `my_OldName OldName`, is another match's context),
+            // otherwise the first occurrence on the line
+            let own_column = line_string
+                .get(m.column..)
+                .is_some_and(|rest| rest.starts_with(&content))
+                .then_some(m.column);
+            if let Some(match_pos) = own_column.or_else(|| line_string.find(&content)) {
                 let identifier_context =
                     extract_immediate_context(&line_string, match_pos, match_pos + content.len());
 
